@@ -1605,7 +1605,7 @@ class VacancyMediated(object):
                            - biasVvec[self.OSindices]
                            ) / self.N
 
-        return L0vv, D0ss + L1ss, D0sv + L1sv, D0vv + D2vv + L1vv
+        return L0vv.copy(), D0ss + L1ss, D0sv + L1sv, D0vv + D2vv + L1vv
 
 
 yaml.add_representer(vacancyThermoKinetics, vacancyThermoKinetics.vacancyThermoKinetics_representer)
